@@ -86,13 +86,24 @@ RULE = (
     'takes part in >= 2 applies, and the history contains an effective branch '
     '(to a state other than the current one, followed by an apply) or a '
     'roundtrip followed by an apply; distinct = distinct canonical case JSON.')
+RULE += (
+    ' '
+    'Later widenings: cohorts may list one client twice (not for HypCluster / APFL); the mode'
+    'l weight is a matrix and the initial parameters are host NumPy arrays (C or Fortran orde'
+    'r) in half of the cases; round trips go through save_state/load_state, msgpack of the st'
+    "ate leaves or the checkpoint module's latest-state slot; an AgnosticFedAvg state may car"
+    "ry a shorter window; a quarter of the histories edit the clients' examples in place betw"
+    'een rounds and compare with fresh datasets; FedAvg over haiku-style params with a frozen'
+    ' module; aggregator weights as 0-d NumPy arrays; a check that restarts in a new process.')
 ASSUMPTIONS = [
     'batching seeds are fixed integers (seed=None draws OS entropy by '
     'documented design and is outside the claim)',
-    'every cohort has >= 1 client and distinct client ids (samplers never '
-    'repeat a client within a round; Mime cannot average an empty cohort); '
-    'zero-example clients are in the domain except for HypCluster, which '
-    'cannot assign a client without examples to a cluster',
+    'every cohort has >= 1 client (Mime cannot average an empty cohort); a '
+    'cohort may list one id twice except for HypCluster and APFL, whose '
+    'per-client outputs are keyed by id (HypCluster raises IndexError for such '
+    'a cohort on the unchanged tree); zero-example clients are in the domain '
+    'except for HypCluster, which cannot assign a client without examples to a '
+    'cluster',
     'num_epochs is always set, so batching a zero-example client terminates',
     'equality is exact: dtype, shape and bytes of every leaf, container types, '
     'dataclass/namedtuple names, dict key sets (dict order is not compared), '
@@ -102,8 +113,10 @@ ASSUMPTIONS = [
     'compared; a difference that matters shows up in the successors',
     'only the default jit for_each_client backend is exercised (the backend is '
     'not in the quantifier; C01/C02 compare backends)',
-    'states are pickled through fedjax.serialization.save_state/load_state '
-    '(tf.io.gfile) into a per-case mkdtemp under /var/tmp, removed afterwards',
+    'states are round-tripped through fedjax.serialization.save_state / '
+    'load_state, msgpack of their leaves, or the checkpoint module (tf.io.gfile) '
+    'in a per-case mkdtemp under /var/tmp, removed afterwards; a haiku FlatMap '
+    'and a dict count as one container kind (FlatMap unpickles as dict)',
     'learning problems are tiny least-squares models with dyadic data and '
     'client step sizes <= 1/4 so trajectories stay finite; non-finite states are '
     'counted (label nonfinite_state) but not asserted on',
